@@ -21,7 +21,15 @@
 (declare-fun move (Bank Addr Addr String Int) Bank)    ; debit `from`, then credit `to` (from = to is a net no-op)
 (declare-fun mint (Bank Addr String Int) Bank)         ; credit and raise supply
 (declare-fun burn (Bank Addr String Int) Bank)         ; debit and lower supply
-(define-fun moveIf ((c Bool) (b Bank) (from Addr) (to Addr) (d String) (v Int)) Bank (ite c (move b from to d v) b))
+(declare-fun moveIf (Bool Bank Addr Addr String Int) Bank)   ; conditional move: move when c, identity otherwise
+(assert (forall ((c Bool) (b Bank) (f Addr) (t Addr) (d String) (v Int))
+  (! (= (moveIf c b f t d v) (ite c (move b f t d v) b)) :pattern ((moveIf c b f t d v)))))
+(assert (forall ((c Bool) (b Bank) (f Addr) (t Addr) (d String) (v Int) (a Addr) (e String))
+  (! (= (bal (moveIf c b f t d v) a e)
+        (+ (bal b a e) (ite (and c (= a t) (= e d)) v 0) (ite (and c (= a f) (= e d)) (- v) 0)))
+     :pattern ((bal (moveIf c b f t d v) a e)))))
+(assert (forall ((c Bool) (b Bank) (f Addr) (t Addr) (d String) (v Int) (e String))
+  (! (= (supply (moveIf c b f t d v) e) (supply b e)) :pattern ((supply (moveIf c b f t d v) e)))))
 (assert (forall ((b Bank) (f Addr) (t Addr) (d String) (v Int) (a Addr) (e String))
   (! (= (bal (move b f t d v) a e)
         (+ (bal b a e) (ite (and (= a t) (= e d)) v 0) (ite (and (= a f) (= e d)) (- v) 0)))
